@@ -10,14 +10,16 @@ GATED = [
 ]
 
 
-def _gate_eval(ctx, body, op_adt, variant, o, found):
+def _gate_eval(ctx, body, op_adt, variant, o, found, extra_atom=None, extra_asm=None):
     facts = ctx.facts
-    asm = {}
+    asm = dict(extra_asm or {})
     if variant is not None:
         asm['variant'] = variants(facts, op_adt).index(variant)
     if o is not None:
         asm['gate'] = o
-    evr = Evaluator(facts, classify=gate_classifier(found), bool_atom=discr_atom_of_param(2), assumption=asm)
+    base = discr_atom_of_param(2)
+    atom = base if extra_atom is None else (lambda t: base(t) or extra_atom(t))
+    evr = Evaluator(facts, classify=gate_classifier(found), bool_atom=atom, assumption=asm)
     return Reach(facts, body, evr), evr
 
 
